@@ -259,3 +259,56 @@ def target_state(graph, rep):
     if rep == "s":
         return QuantumState(get_clifford_tableau_from_graph(graph), rep_type="s")
     return QuantumState(graph_to_density(graph), rep_type="dm")
+
+
+# ----------------------------------------------------------------------------------------------------------
+# full structural projection of a CircuitDAG (C12 / C04 / C18)
+def _nid(n):
+    return n if isinstance(n, str) else str(n)
+
+
+def op_content(op):
+    kind = type(op).__name__
+    gates = [g.__name__ for g in op.operations] if kind == "OneQubitGateWrapper" else [kind]
+    q = [f"{t}{r}" for r, t in zip(op.q_registers, op.q_registers_type)]
+    return {"kind": kind, "q": q, "qt": list(op.q_registers_type), "qi": [int(r) for r in op.q_registers],
+            "c": [f"c{r}" for r in op.c_registers], "ci": [int(r) for r in op.c_registers], "gates": gates}
+
+
+def dag_obs(circuit, incompat_edges=None):
+    """Everything CircuitDAG holds, as plain data."""
+    from graphiq.circuit import ops as gops
+    dag = circuit.dag
+    nodes = []
+    for n in dag.nodes:
+        op = dag.nodes[n]["op"]
+        if isinstance(op, gops.Input):
+            nodes.append({"id": _nid(n), "io": "in", "kind": "Input", "q": [], "qt": [], "c": [], "gates": [], "labels": []})
+        elif isinstance(op, gops.Output):
+            nodes.append({"id": _nid(n), "io": "out", "kind": "Output", "q": [], "qt": [], "c": [], "gates": [], "labels": []})
+        else:
+            c = op_content(op)
+            nodes.append({"id": _nid(n), "io": "", "kind": c["kind"], "q": c["q"], "qt": c["qt"], "c": c["c"],
+                          "gates": c["gates"], "labels": [str(x) for x in op.labels]})
+    edges = [{"u": _nid(u), "v": _nid(v), "key": str(k), "rt": str(d.get("reg_type")), "r": int(d.get("reg"))}
+             for u, v, k, d in dag.edges(keys=True, data=True)]
+    node_dict = {str(k): [_nid(x) for x in v] for k, v in circuit.node_dict.items()}
+    edge_dict = {str(k): [[_nid(e[0]), _nid(e[1]), str(e[2])] for e in v] for k, v in circuit.edge_dict.items()}
+    regs = circuit.register
+    o = {"err": "", "nodes": nodes, "edges": edges, "node_dict": node_dict, "edge_dict": edge_dict,
+         "regs": {"e": len(regs["e"]), "p": len(regs["p"]), "c": len(regs["c"])},
+         "seq": [], "incompat": []}
+    try:
+        objs = {id(dag.nodes[n]["op"]): _nid(n) for n in dag.nodes}
+        o["seq"] = [objs[id(op)] for op in circuit.sequence()]
+    except Exception as ex:          # sequence() raises on a cyclic graph: the structure itself is the observation
+        o["seq"] = []
+        o["seq_err"] = type(ex).__name__
+    for e in incompat_edges or []:
+        try:
+            inc = circuit.find_incompatible_edges(e)
+            o["incompat"].append({"e": [_nid(e[0]), _nid(e[1]), str(e[2])],
+                                  "inc": [[_nid(x[0]), _nid(x[1]), str(x[2])] for x in inc]})
+        except Exception:
+            pass
+    return o
